@@ -128,6 +128,8 @@ pub struct NetCore {
     pub n_nodes: usize,
     pub group: Vec<u8>,
     pub crashed: Vec<bool>,
+    /// armed mid-broadcast crashes: per node (message class, matching sends still let through)
+    crash_trigger: Vec<Option<(u8, u32)>>,
     pub stalled_until: Vec<Option<Instant>>,
     held: Vec<(u16, usize, Arc<Vec<u8>>)>,
     pub taps: Vec<TapRec>,
@@ -152,6 +154,7 @@ impl NetCore {
             n_nodes,
             group: vec![0; n_nodes],
             crashed: vec![false; n_nodes],
+            crash_trigger: vec![None; n_nodes],
             stalled_until: vec![None; n_nodes],
             held: Vec::new(),
             taps: Vec::new(),
@@ -180,6 +183,27 @@ impl NetCore {
         let now = Instant::now();
         if !self.endpoints.contains_key(&to_port) {
             return;
+        }
+        if from < self.n_nodes
+            && from != to
+            && !self.crashed[from]
+            && let Some((class, left)) = self.crash_trigger[from]
+        {
+            let iface = Iface::from_port(from_port);
+            let is_class = match class {
+                0 => iface == Some(Iface::A2A) && bytes.len() >= 4 && bytes[0] == 0,
+                1 => iface == Some(Iface::A2A) && bytes.len() >= 4 && bytes[0] == 1,
+                _ => iface == Some(Iface::Dissem),
+            };
+            if is_class {
+                if left == 0 {
+                    self.crash_trigger[from] = None;
+                    kernel::fault("crash_mid_broadcast");
+                    self.crash(from);
+                } else {
+                    self.crash_trigger[from] = Some((class, left - 1));
+                }
+            }
         }
         if from < self.n_nodes && self.crashed[from] || to < self.n_nodes && self.crashed[to] {
             kernel::fault("swallowed_by_crash");
@@ -277,6 +301,12 @@ impl NetCore {
             self.push(now + Duration::from_millis(d), to_port, from, bytes);
         }
         self.notify.notify_one();
+    }
+
+    /// Arms a crash of `node` in the middle of its next broadcast of the given message class.
+    pub fn arm_crash(&mut self, node: usize, class: u8, after_sends: u32) {
+        kernel::event(&format!("arm mid-broadcast crash n{node} class {class} after {after_sends} sends"));
+        self.crash_trigger[node] = Some((class, after_sends));
     }
 
     pub fn crash(&mut self, node: usize) {
